@@ -302,6 +302,7 @@ func cmdCheck(args []string) int {
 	discharged := 0
 	bySolver := map[string]map[string]any{}
 	var viol []OblResult
+	var coveredByFinding []string
 	for _, r := range results {
 		if r.Status == "discharged" {
 			discharged++
@@ -315,7 +316,24 @@ func cmdCheck(args []string) int {
 		} else if r.Status == "error" {
 			machinery = append(machinery, fmt.Sprintf("solver rejected the query for %s: %s", r.Name, firstLines(r.Output, 2)))
 		} else {
-			viol = append(viol, r)
+			// a failing obligation that a listed (unfixed) finding of this property names, and whose witness
+			// still fails on the real code, is that finding - not a new violation
+			covered := false
+			for _, kf := range witnessToRun {
+				if kf.Property != *prop || wres[kf.ID] != "fails" {
+					continue
+				}
+				for _, o := range kf.Obligations {
+					if o == strings.TrimSuffix(r.Name, "@conc") || o == r.Name {
+						covered = true
+					}
+				}
+			}
+			if covered {
+				coveredByFinding = append(coveredByFinding, r.Name)
+			} else {
+				viol = append(viol, r)
+			}
 		}
 		if r.Agree != nil {
 			sat, unsat := false, false
@@ -404,6 +422,7 @@ func cmdCheck(args []string) int {
 		"samples":                  samples,
 		"undischarged":             undis,
 		"known_findings_reported":  knownLines,
+		"obligations_failing_as_known_findings": coveredByFinding,
 		"vacuity":                  map[string]int{"cover_checks_run": vacuityRun, "not_vacuous": vacuityOK},
 		"machinery_errors":         machinery,
 		"explanation":              "one SMT query per named obligation generated from the SSA of the real functions in /repo under their //@ contracts; unsat = discharged",
